@@ -90,6 +90,8 @@ func c04(c *Ctx) {
 	}
 	// helper types in an imported file (generated together / one invocation per file)
 	c04split(c, "c04s", "codec-split")
+	// enum types with enum_value strings: their own JSON methods, in every declaration scope
+	c04enum(c, "c04e", "codec-enum")
 	n, reps := lab.RaceReports(c.Scratch + "/race-c04")
 	c.R.Count("race_reports", n)
 	for _, r := range reps {
